@@ -166,7 +166,7 @@ def cg_cases(draw):
     n_max = {1: 6, 2: 9, 3: 8, 4: 7, 5: 6}[k]
     profile, values = draw(S.values_lists(max(2, n_max - 3), n_max, numbins=k,
                                           profiles=["tiny", "small", "medium", "medium", "large", "large", "two-valued", "one-dominant",
-                                                    "planted", "planted", "planted", "arithmetic"]))
+                                                    "planted", "planted", "planted", "arithmetic", "near-equal-large", "near-equal-large"]))
     return {"alg": "cg", "values": values, "numbins": k, "pres": draw(st.sampled_from(["list", "list", "dict-str", "dict-int", "names-array"])),
             "nseed": draw(st.integers(0, 5)), "profile": profile, "cutseed": draw(st.integers(0, 2 ** 30)),
             "opts": {"objective": draw(st.sampled_from(S.CG_OBJECTIVES)), "switches": draw(S.switches)}}
@@ -181,7 +181,7 @@ def cbldm_cases(draw):
         profile, values = "spread-" + str(n), S.splitmix(draw(st.integers(0, 2 ** 40)), n, 1, draw(st.sampled_from([1000, 1000, 10 ** 5])))
     else:
         profile, values = draw(S.values_lists(2, 10, numbins=2, profiles=["tiny", "small", "small", "medium", "two-valued", "one-dominant",
-                                                                          "planted", "skewed", "skewed"]))
+                                                                          "planted", "skewed", "skewed", "near-equal-large"]))
     case = {"alg": "cbldm", "values": values, "numbins": 2, "pres": draw(st.sampled_from(["list", "list", "dict-str", "dict-int", "names-array"])),
             "nseed": draw(st.integers(0, 5)), "profile": profile, "cutseed": draw(st.integers(0, 2 ** 30))}
     pd = draw(st.sampled_from([None, 1, 2, 2, 3] if spread else [None, None, 1, 1, 2, 3]))
@@ -195,7 +195,7 @@ def generator_cases(draw):
     k = draw(st.sampled_from([2, 3, 3, 3, 4, 4, 5]))
     n_max = {2: 10, 3: 9, 4: 8, 5: 7}[k]
     # profiles on which the first Karmarkar-Karp leaf is often not optimal, so that the generator yields more than once
-    profile, values = draw(S.values_lists(max(2, n_max - 2), n_max, numbins=k, profiles=["small", "medium", "medium", "large", "one-dominant",
+    profile, values = draw(S.values_lists(max(2, n_max - 2), n_max, numbins=k, profiles=["small", "medium", "medium", "large", "one-dominant", "near-equal-large",
                                                                                         "planted", "planted", "planted"]))
     return {"alg": "ckkgen", "values": values, "numbins": k, "pres": draw(st.sampled_from(["list", "dict-str", "names-array"])),
             "nseed": draw(st.integers(0, 5)), "profile": profile}
